@@ -180,22 +180,17 @@ class _Hang(Exception):
 
 
 def impl_long(s, ext, indent):
-    """_write_longstring under a 1 s watchdog (a split position of 0 makes its loop spin forever)."""
-    import signal
+    """_write_longstring under a CPU-time watchdog (1 s of process CPU, one retry with 4 s; a split position of 0
+    makes its loop spin forever). None = does not terminate."""
     from srctools import fgd as F
-    f = io.StringIO()
-    def on_alarm(*a):
-        raise _Hang()
-    old = signal.signal(signal.SIGALRM, on_alarm)
-    signal.setitimer(signal.ITIMER_REAL, 1.0)
-    try:
+    def call():
+        f = io.StringIO()
         F._write_longstring(f, ext, s, indent=indent)
-    except _Hang:
+        return f.getvalue()
+    try:
+        return G.cpu_guarded(call, cpu=1.0)
+    except G.Hang:
         return None
-    finally:
-        signal.setitimer(signal.ITIMER_REAL, 0)
-        signal.signal(signal.SIGALRM, old)
-    return f.getvalue()
 
 
 def check_long_property(ctx, s, ext, out, read):
